@@ -15,7 +15,7 @@ RULE = ("seeded generator: OPEN bodies from the grammar (70% well-formed for the
         "against configurations (local AS =/!= remote AS, AS <=/> 65535, AS 23456, local id = / != sender id). "
         "Non-trivial = all; distinct = distinct (configuration, body).")
 ASSUMPTIONS = ["function-level half (decode+validate+getCapabilities); the FSM half is exercised by the connection-level checks"]
-COQ_FILES = ["Model/Packet.v", "Spec/OpenSpec.v", "Proofs/OpenProofs2.v", "Props/C02.v"]
+COQ_FILES = ["Model/Packet.v", "Spec/OpenSpec.v", "Proofs/OpenProofs2.v", "Proofs/OpenProofs3.v", "Model/Conn.v", "Proofs/ConnProofs.v", "Props/C02.v"]
 
 
 def cfg(rng):
